@@ -147,6 +147,28 @@ pub fn run_c04(w: &mut W) {
                 sut.parse(0, &m.wire());
                 w.rep.count("interleaved_ipfix_messages", 1);
             }
+            if !ex.v9_t.is_empty() && rng.chance(1, 400) {
+                // a long quiet spell for every template announced so far: two to three thousand
+                // header-only V9 packets (one buffer), none of which refreshes or uses any id.
+                // RFC 3954 lets an *exporter* expire templates; a collector that forgets them on
+                // its own drops conformant data.
+                let m = 2100 + rng.usize(1170);
+                let mut idle = Vec::with_capacity(20 * m);
+                for i in 0..m {
+                    idle.extend_from_slice(&[0, 9, 0, 0]);
+                    idle.extend_from_slice(&rng.b32().to_be_bytes());
+                    idle.extend_from_slice(&rng.b32().to_be_bytes());
+                    idle.extend_from_slice(&(i as u32).to_be_bytes());
+                    idle.extend_from_slice(&last_source.to_be_bytes());
+                }
+                let r = sut.parse(0, &idle);
+                w.rep.count("idle_spells_of_header_only_packets", 1);
+                if r.len() != m || r.iter().any(|e| !matches!(e, NetflowPacket::V9(_))) {
+                    let d = div("v9/idle", "elements", format!("{} header-only V9 packets in one buffer returned {} elements", m, r.len()));
+                    w.rep.violation(sig("C04", &d), &d, sut.replay_json());
+                    break;
+                }
+            }
             let pkt = ex.v9_packet(&mut rng, &cfg, &w.pools);
             last_source = pkt.source_id;
             let wire = pkt.wire();
@@ -350,6 +372,24 @@ pub fn run_c05(w: &mut W) {
                 p.source_id = last_domain;
                 sut.parse(0, &p.wire());
                 w.rep.count("interleaved_v9_packets", 1);
+            }
+            if !ex.ix_t.is_empty() && rng.chance(1, 400) {
+                // a long quiet spell (see C04): two to four thousand header-only IPFIX messages
+                let m = 2100 + rng.usize(1900);
+                let mut idle = Vec::with_capacity(16 * m);
+                for i in 0..m {
+                    idle.extend_from_slice(&[0, 10, 0, 16]);
+                    idle.extend_from_slice(&rng.b32().to_be_bytes());
+                    idle.extend_from_slice(&(i as u32).to_be_bytes());
+                    idle.extend_from_slice(&last_domain.to_be_bytes());
+                }
+                let r = sut.parse(0, &idle);
+                w.rep.count("idle_spells_of_header_only_messages", 1);
+                if r.len() != m || r.iter().any(|e| !matches!(e, NetflowPacket::IPFix(_))) {
+                    let d = div("ipfix/idle", "elements", format!("{} header-only IPFIX messages in one buffer returned {} elements", m, r.len()));
+                    w.rep.violation(sig("C05", &d), &d, sut.replay_json());
+                    break;
+                }
             }
             let msg = ex.ipfix_msg(&mut rng, &cfg, &w.pools);
             last_domain = msg.domain;
